@@ -163,6 +163,38 @@ pub fn run(ctx: &Ctx) -> Result<Evidence, String> {
         }
     };
     let mut large_a: Vec<Vec<J>> = vec![];
+    // sorted integer lists of 8..33 elements (merge-style / binary-search look-ups): ascending
+    // and descending, with values repeated more often in A than in B, with one element missing
+    let fib: Vec<i64> = vec![1, 2, 3, 5, 8, 13, 21, 34, 55, 89, 144, 233, 377, 610, 987, 1597, 2584, 4181, 6765, 10946, 17711, 28657, 46368, 75025, 121393, 196418, 317811, 514229, 832040, 1346269, 2178309, 3524578, 5702887];
+    let mut sorted_b: Vec<Vec<J>> = vec![];
+    for &n in &[8usize, 9, 12, 16, 33] {
+        let base: Vec<i64> = fib[..n].to_vec();
+        // A: every element of B's prefix, some twice / three times
+        let mut a1: Vec<i64> = vec![];
+        for (i, v) in base.iter().enumerate().take(n.min(12)) {
+            a1.push(*v);
+            if i % 3 == 0 {
+                a1.push(*v);
+            }
+            if i % 5 == 4 {
+                a1.push(*v);
+                a1.push(*v);
+            }
+        }
+        let mut a2 = a1.clone();
+        a2.push(base[n - 1] + 1); // one element that B lacks, still ascending
+        let a3: Vec<i64> = base.iter().rev().cloned().collect(); // descending
+        let mut a4 = base.clone();
+        a4.dedup();
+        for a in [a1, a2, a3, a4, base[..8].to_vec()] {
+            large_a.push(a.into_iter().map(J::int).collect());
+        }
+        sorted_b.push(base.iter().cloned().map(J::int).collect());
+        let mut b2: Vec<i64> = base.clone();
+        b2.insert(1, base[0]); // B itself with one repeat
+        sorted_b.push(b2.into_iter().map(J::int).collect());
+        sorted_b.push(base.iter().rev().cloned().map(J::int).collect());
+    }
     for &la in &[4usize, 8, 12, 20, 33] {
         for kind in 0..4 {
             for neg in [true, false] {
@@ -187,6 +219,9 @@ pub fn run(ctx: &Ctx) -> Result<Evidence, String> {
                 }
             }
         }
+    }
+    for b in sorted_b {
+        bs.push(J::Arr(b));
     }
     let n_large_b = bs.len() - first_large_b;
     let n_array_bs = bs.len();
